@@ -54,7 +54,7 @@ def behaviours(quick, rng):
 
     def one(c):
         if c in sims:
-            return hg.tlc("MCReduceTree", "ReduceTree.%s.cfg" % c, workers=2, simulate="num=%d" % (12 if quick else 150), depth=70,
+            return hg.tlc("MCReduceTree", "ReduceTree.%s.cfg" % c, workers=2, simulate="num=%d" % (8 if quick else 150), depth=70,
                           timeout=240 if quick else 1500, extra=["-seed", str(hg.seed())], metatag="reduceB-" + c)
         return hg.tlc("MCReduceTree", "ReduceTree.%s.cfg" % c, workers=2, timeout=1500, metatag="reduceB-" + c)
     with ThreadPoolExecutor(max_workers=2) as ex:
